@@ -196,6 +196,33 @@ func runRt(c map[string]any, ev map[string]any) error {
 		}
 	}
 	ev["dauth"] = auth
+	// the same for a second session that logs in the 1.2.3 way (name and icon in the login, no version, no Agreed)
+	oc := w.Dial("")
+	if rep, err := oc.Login(sim.LoginOpts{Login: "u", Password: "pw", Name: "U old", Icon: 2, Old: true}); err != nil || rep.Err != 0 {
+		return fmt.Errorf("rt(d): old-flow login: %v err=%d", err, rep.Err)
+	}
+	owire, onwire := []int{}, 0
+	for _, f := range oc.Drain() {
+		if f.IsReply == 0 && f.Type == sim.TUserAccess {
+			onwire++
+			if b, ok := f.Get(sim.FUserAccess); ok && onwire == 1 {
+				owire = sim.Ints(b)
+			}
+		}
+	}
+	ev["owire"] = owire
+	ev["onwire"] = onwire
+	occ := oc.ServerConn()
+	if occ == nil {
+		return fmt.Errorf("rt(d): no server connection (old flow)")
+	}
+	oauth := []int{}
+	for i := 0; i < 64; i++ {
+		if occ.Authorize(i) {
+			oauth = append(oauth, i)
+		}
+	}
+	ev["oauth"] = oauth
 	return nil
 }
 
